@@ -60,6 +60,7 @@ type loopObj struct {
 	sab       []int              // descriptors held by a sabotage
 	packets   bool               // FIFO in packet mode
 	adopted   int                // listener: accepted connections that became objects (adopt)
+	stolen    int                // listener: connections taken with the blocking Accept (peer k steal)
 	peer      net.Conn           // tcp/adapter peer
 	peerFd    int                // fifo peer end (-1 if closed)
 	peerPC    *net.UDPConn       // packet peer
@@ -718,6 +719,16 @@ func (lw *loopWorld) peer(f []string) {
 				waitReady(lw.rawFd(o), unix.POLLIN, 200)
 			}
 		}
+	case "steal":
+		// somebody else (the blocking twin Accept, another process sharing the socket) takes the queued connection
+		if o.kind != "listener" || o.closed {
+			res = "fail"
+		} else if c, err := o.ln.Accept(); err != nil {
+			res = "none"
+		} else {
+			o.stolen++
+			_ = c.Close()
+		}
 	case "packetmode":
 		// the writer's end of the FIFO switches to packet mode (O_DIRECT, pipe(7)): every write is a packet, a read returns one
 		// packet at a time — a descriptor that keeps message boundaries, so that reads come back short while more is queued
@@ -908,7 +919,7 @@ func (lw *loopWorld) finish() {
 					}
 				case "listener":
 					// a connection the peer made and no accept has handed out is still owed to this accept: no new one
-					if round%4 == 0 && len(o.peerConns) <= len(o.accepted) {
+					if round%4 == 0 && len(o.peerConns) <= len(o.accepted)+o.stolen {
 						lw.peer([]string{"peer", strconv.Itoa(op.obj), "connect"})
 					}
 				case "packet", "mpeer":
@@ -943,7 +954,7 @@ func (lw *loopWorld) finish() {
 		case "read":
 			o := lw.objs[op.obj]
 			ready = waitReady(lw.rawFd(o), unix.POLLIN, 0) != 0
-			if o.kind == "listener" && len(o.sab) == 0 && len(o.peerConns) > len(o.accepted) {
+			if o.kind == "listener" && len(o.sab) == 0 && len(o.peerConns) > len(o.accepted)+o.stolen {
 				// the kernel completed more connections to this listener than accepts have handed out (the backlog is far
 				// larger than a script): one of them belongs to this accept, wherever it went
 				ready = true
@@ -1626,6 +1637,47 @@ func loopEnum(args []string, w *bufio.Writer) {
 		}
 		emit("obj 1 tcp", "prog 11 "+act+" 1", "prog 12 "+act+" 1", "writeall 1 70000 op=12", "read 1 4 op=11", "peer 1 write 4", "peer 1 drain", "poll", "pending", "poll", "pending")
 	}
+	// 5b. the same for every kind of operation that can wait in the poller (also writes parked only because the dispatch limit
+	// was reached): a handler dispatched earlier in the batch — another object's completion, a posted handler — closes or
+	// cancels the object; both orders of becoming ready
+	type victim struct {
+		kind   string
+		start  []string
+		cancel bool
+	}
+	victims := []victim{
+		{"packet", []string{"setdisp 32", "sendto 1 8 op=11", "setdisp 0"}, false},
+		{"packet", []string{"recvfrom 1 16 op=11", "peer 1 send 8"}, false},
+		{"mpeer", []string{"setdisp 32", "sendto 1 8 op=11", "setdisp 0"}, false},
+		{"mpeer", []string{"recvfrom 1 16 op=11", "peer 1 send 8"}, false},
+		{"listener", []string{"accept 1 op=11", "peer 1 connect"}, false},
+		{"tcp", []string{"read 1 4 op=11", "peer 1 write 4"}, true},
+		{"tcp", []string{"setdisp 32", "write 1 8 op=11", "setdisp 0"}, true},
+		{"tcp", []string{"setdisp 32", "write 1 8 op=11", "setdisp 0", "read 1 4 op=13", "peer 1 write 4"}, true},
+		{"fifo", []string{"read 1 4 op=11", "peer 1 write 4"}, true},
+		{"adapter", []string{"read 1 4 op=11", "peer 1 write 4"}, true},
+		{"adapter", []string{"setdisp 32", "write 1 8 op=11", "setdisp 0"}, true},
+	}
+	for _, v := range victims {
+		acts := []string{"close"}
+		if v.cancel {
+			acts = append(acts, "cancel")
+		}
+		for _, act := range acts {
+			for _, killer := range [][]string{{"read 2 4 op=12", "peer 2 write 4"}, {"post op=12"}} {
+				head := []string{"obj 1 " + v.kind, "obj 2 tcp", "prog 12 " + act + " 1"}
+				tail := []string{"poll", "pending", "poll", "pending"}
+				emit(append(append(append(append([]string{}, head...), killer...), v.start...), tail...)...)
+				emit(append(append(append(append([]string{}, head...), v.start...), killer...), tail...)...)
+			}
+		}
+	}
+	// 5c. a listener reported readable whose queue is empty by the time its handler runs (a handler earlier in the batch took the
+	// connection with the blocking Accept): the accept completes once, whatever it reports, and a later connection is not its
+	emit("obj 1 listener", "obj 2 tcp", "prog 12 peer 1 steal", "accept 1 op=11", "read 2 4 op=12", "peer 2 write 4", "peer 1 connect", "poll", "pending",
+		"peer 1 connect", "poll", "poll", "pending", "accept 1 op=13", "poll", "pending")
+	emit("obj 1 listener", "prog 12 peer 1 steal", "accept 1 op=11", "post op=12", "peer 1 connect", "poll", "pending", "peer 1 connect", "poll", "poll", "pending")
+	emit("obj 1 listener", "prog 12 peer 1 steal", "prog 11 accept 1 op=+", "accept 1 op=11", "post op=12", "peer 1 connect", "poll", "pending", "peer 1 connect", "poll", "poll", "pending")
 	// 6. what the callback of a repeating schedule does to its own timer (the schedule continues unless the callback
 	// cancelled / closed the timer or left another schedule armed), including a nested poll in which the new schedule fires
 	for _, body := range []string{
